@@ -1,0 +1,32 @@
+//go:build verif
+
+package parser
+
+// Verification hook (build tag "verif"): a per-Parser step counter with an
+// optional budget. With the tag off, verifTick is an empty inlinable method
+// (see verif_tick_off.go) and the compiled parser is unchanged.
+
+type verifState struct {
+	steps  int64
+	budget int64
+}
+
+// VerifBudgetExceeded is the sentinel panic value raised when the step budget
+// set with VerifSetBudget is exceeded.
+type VerifBudgetExceeded struct {
+	Steps int64
+}
+
+func (p *Parser) verifTick() {
+	p.verif.steps++
+	if p.verif.budget > 0 && p.verif.steps > p.verif.budget {
+		panic(VerifBudgetExceeded{Steps: p.verif.steps})
+	}
+}
+
+// VerifSteps returns the number of parser steps (currentIs, peekIs, nextToken
+// calls) performed so far.
+func (p *Parser) VerifSteps() int64 { return p.verif.steps }
+
+// VerifSetBudget sets the maximum number of steps; 0 means unlimited.
+func (p *Parser) VerifSetBudget(n int64) { p.verif.budget = n }
